@@ -262,9 +262,14 @@ func coveredCallersSweep(p *Prog, prop string, rr *RunResult) {
 		return
 	}
 	targets := map[*ssa.Function]bool{}
+	handlerTargets := map[string]bool{} // "pkg::Type.field.Method": function values registered through it must be under contract
 	fieldTargets := map[string]bool{} // "pkg::Type.field.Method" (method invoked on the value of a field) or "pkg::send Type.field"
 	for _, k := range p.CS.RuleArgs["covered-callers"] {
 		a := k[strings.Index(k, "::")+2:]
+		if strings.HasPrefix(a, "handlers ") {
+			handlerTargets[k[:strings.Index(k, "::")+2]+strings.TrimSpace(a[len("handlers "):])] = true
+			continue
+		}
 		if strings.HasPrefix(a, "send ") || strings.HasPrefix(a, "write ") || (!strings.Contains(a, "(") && strings.Count(a, ".") == 2) {
 			fieldTargets[k] = true
 			continue
@@ -456,6 +461,54 @@ func coveredCallersSweep(p *Prog, prop string, rr *RunResult) {
 		n := 0
 		for _, b := range f.Blocks {
 			for _, in := range b.Instrs {
+				if ci, ok := in.(ssa.CallInstruction); ok && ci.Common().IsInvoke() {
+					c := ci.Common()
+					if fo := fieldOf(c.Value); fo != "" && handlerTargets[fo+"."+c.Method.Name()] {
+						for _, a := range c.Args {
+							if _, isFn := a.Type().Underlying().(*types.Signature); !isFn {
+								continue
+							}
+							var target *ssa.Function
+							for {
+								if ct, ok := a.(*ssa.ChangeType); ok {
+									a = ct.X
+									continue
+								}
+								break
+							}
+							switch v := a.(type) {
+							case *ssa.MakeClosure:
+								target = v.Fn.(*ssa.Function)
+							case *ssa.Function:
+								target = v
+							}
+							if target != nil && strings.HasPrefix(target.Synthetic, "bound method wrapper") {
+								if obj, ok := target.Object().(*types.Func); ok {
+									if m := p.SSA.FuncValue(obj); m != nil {
+										target = m
+									}
+								}
+							}
+							if e == nil {
+								e = newExec(p, dispName(f))
+								e.fn = f
+							}
+							n++
+							goal := "true"
+							desc := fmt.Sprintf("the function registered through %s.%s in %s has a contract (it becomes part of the handler chain the proofs are about)", fo[strings.Index(fo, "::")+2:], c.Method.Name(), dispName(f))
+							if target == nil {
+								goal = "false"
+								desc += ": the registered function is not a function literal or method known here"
+							} else if p.contractFor(target) == nil {
+								goal = "false"
+								desc += ": " + dispName(target) + " has none"
+							}
+							st := &State{reach: "true"}
+							o := e.obligeNoAssume(st, fmt.Sprintf("covered-callers:handler-of-%s:%d", c.Method.Name(), n), "discipline", tags, goal, desc, in.Pos())
+							o.Pos = posOf(p, in.Pos())
+						}
+					}
+				}
 				what := sensitive(in)
 				if what == "" {
 					continue
